@@ -112,6 +112,9 @@ pub fn case(tape: &[u32]) -> CaseOutcome {
     if tape.len() == 2 && tape[0] == PINNED_TAG {
         return pinned_address_order();
     }
+    if tape.len() == 2 && tape[0] == PROBE_TAG {
+        return probe(tape[1] as usize);
+    }
     let (progs, sources, rest) = gen_inputs(tape);
     let mut h = Tape::new(&rest);
     let mut report = CaseReport::default();
@@ -421,6 +424,161 @@ fn cross_process(spec: &Spec, nproc: usize, ncases: usize) -> RunResult {
 }
 
 const PINNED_TAG: u32 = 0xFFFF_FF12;
+const PROBE_TAG: u32 = 0xFFFF_FF13;
+
+/// A function that executes another file on another tree while the outer execution is between
+/// two of its matches, and reports what came out.
+struct Reenter {
+    inner: std::sync::Arc<File>,
+    lazy: bool,
+}
+
+impl tree_sitter_graph::functions::Function for Reenter {
+    fn call(&self, _graph: &mut Graph, _source: &str, parameters: &mut dyn tree_sitter_graph::functions::Parameters) -> Result<Value, tree_sitter_graph::ExecutionError> {
+        parameters.finish()?;
+        let source = "a\nb\n";
+        let tree = pysrc::parse(source);
+        let functions = Functions::stdlib();
+        let globals = Variables::new();
+        let config = ExecutionConfig::new(&functions, &globals).lazy(self.lazy);
+        Ok(match self.inner.execute(&tree, source, &config, &NoCancellation) {
+            Ok(g) => Value::String(format!("inner run: {} nodes", g.node_count())),
+            Err(e) => Value::String(format!("inner run failed: {}", e)),
+        })
+    }
+}
+
+struct Constant(&'static str);
+impl tree_sitter_graph::functions::Function for Constant {
+    fn call(&self, _graph: &mut Graph, _source: &str, parameters: &mut dyn tree_sitter_graph::functions::Parameters) -> Result<Value, tree_sitter_graph::ExecutionError> {
+        while parameters.param().is_ok() {}
+        Ok(Value::String(self.0.to_string()))
+    }
+}
+
+/// Fixed probes of clauses the generated histories do not reach:
+/// 0 - a diagnostic is a function of the text, whatever the thread loaded before;
+/// 1..=4 - an execution started from inside a caller-supplied function / a match visitor
+///         (re-entrancy on one thread) equals the isolated run;
+/// 5, 6 - a function the caller re-registers between two executions is the one that is called.
+fn probe(i: usize) -> CaseOutcome {
+    let pass = |label: &str| CaseOutcome::Pass(CaseReport { fingerprint: fingerprint(&format!("probe{}", i)), nontrivial: true, labels: vec![format!("probe:{}", label)], counters: vec![], sample: None, evaluations: 1 });
+    let failure = |sig: &str, msg: String| CaseOutcome::Fail(Failure::new(format!("C12:{}", sig), msg, json!({"probe": i})));
+    match i {
+        0 => {
+            let a = "(module) @_m {\n  scan \"x\" {\n    \"(\" { }\n  }\n}\n";
+            let b = "\n\n; moved down\n(module) @_m {\n\n      scan \"x\" { \"(\" { } }\n}\n";
+            let diag = |text: &str| match load(text) {
+                Ok(Err(e)) => format!("{}", e),
+                Ok(Ok(_)) => "accepted".to_string(),
+                Err(p) => format!("panic: {}", p.message),
+            };
+            let (ta, tb) = (a.to_string(), b.to_string());
+            let fresh_a = std::thread::spawn(move || match load(&ta) { Ok(Err(e)) => format!("{}", e), Ok(Ok(_)) => "accepted".to_string(), Err(p) => format!("panic: {}", p.message) }).join().unwrap_or_default();
+            let fresh_b = std::thread::spawn(move || match load(&tb) { Ok(Err(e)) => format!("{}", e), Ok(Ok(_)) => "accepted".to_string(), Err(p) => format!("panic: {}", p.message) }).join().unwrap_or_default();
+            let seq = [diag(b), diag(a), diag(b), diag(a)];
+            if seq[1] != fresh_a || seq[3] != fresh_a || seq[0] != fresh_b || seq[2] != fresh_b {
+                return failure("diagnostic-depends-on-history", format!("the diagnostic of a text depends on what the thread loaded before: alone `{}` / `{}`, in sequence {:?}", fresh_a, fresh_b, seq));
+            }
+            pass("diagnostic-independent-of-history")
+        }
+        1..=4 => {
+            let (outer_lazy, inner_lazy) = (i % 2 == 0, i >= 3);
+            let inner_dsl = "(identifier) @x { node @x.n }\n";
+            let inner = match load(inner_dsl) {
+                Ok(Ok(f)) => std::sync::Arc::new(f),
+                _ => return CaseOutcome::Discard("probe file rejected"),
+            };
+            let outer_dsl = "(identifier) @id {\n  node @id.n\n  attr (@id.n) inner = (reenter)\n  if (eq (reenter) \"inner run: 2 nodes\") {\n    attr (@id.n) seen\n  }\n}\n";
+            let outer = match load(outer_dsl) {
+                Ok(Ok(f)) => f,
+                _ => return CaseOutcome::Discard("probe file rejected"),
+            };
+            let source = "p\nq\nr\n";
+            let tree = pysrc::parse(source);
+            let index = TreeIndex::new(&tree);
+            let mut functions = Functions::stdlib();
+            functions.add(Identifier::from("reenter"), Reenter { inner: inner.clone(), lazy: inner_lazy });
+            let globals = Variables::new();
+            let config = ExecutionConfig::new(&functions, &globals).lazy(outer_lazy);
+            let r = call_lib(|| outer.execute(&tree, source, &config, &NoCancellation));
+            let graph = match r {
+                Err(p) => return failure("reentrant-execution-panics", format!("an execution started from a caller-supplied function (outer lazy={}, inner lazy={}) panicked: {}", outer_lazy, inner_lazy, p.message)),
+                Ok(Err(e)) => return failure("reentrant-execution-fails", format!("outer execution failed: {}", e)),
+                Ok(Ok(g)) => g,
+            };
+            let obs = match observe(&graph, &index) {
+                Ok(o) => o,
+                Err(e) => return failure("bad-graph", e),
+            };
+            let want = CVal::Str("inner run: 2 nodes".into());
+            if obs.nodes.len() != 3 || obs.nodes.iter().any(|n| n.attrs.get("inner") != Some(&want) || n.attrs.get("seen") != Some(&CVal::Bool(true))) {
+                return failure("reentrant-execution-differs", format!("the inner executions did not equal the isolated run: {:?}", obs.nodes));
+            }
+            // the same from inside a match visitor
+            let mut inner_results = vec![];
+            let visited = call_lib(|| {
+                outer.try_visit_matches::<(), _>(&tree, source, outer_lazy, |_m| {
+                    let src = "a\nb\n";
+                    let t2 = pysrc::parse(src);
+                    let f2 = Functions::stdlib();
+                    let g2 = Variables::new();
+                    let c2 = ExecutionConfig::new(&f2, &g2).lazy(inner_lazy);
+                    inner_results.push(inner.execute(&t2, src, &c2, &NoCancellation).map(|g| g.node_count()).map_err(|e| format!("{}", e)));
+                    Ok(())
+                })
+            });
+            match visited {
+                Err(p) => return failure("reentrant-execution-panics", format!("an execution started from a match visitor panicked: {}", p.message)),
+                Ok(_) => {
+                    if inner_results.len() != 3 || inner_results.iter().any(|r| r != &Ok(2)) {
+                        return failure("reentrant-execution-differs", format!("executions started from a match visitor gave {:?}", inner_results));
+                    }
+                }
+            }
+            pass("re-entrant-executions")
+        }
+        _ => {
+            let lazy = i == 6;
+            // the re-registered function is the last call of one execution and the first of the next
+            let dsl = "(module) @m {\n  node @m.n\n  attr (@m.n) first = (probe)\n  attr (@m.n) p = (probe)\n}\n";
+            let file = match load(dsl) {
+                Ok(Ok(f)) => f,
+                _ => return CaseOutcome::Discard("probe file rejected"),
+            };
+            let source = "pass\n";
+            let tree = pysrc::parse(source);
+            let index = TreeIndex::new(&tree);
+            let mut functions = Functions::stdlib();
+            functions.add(Identifier::from("probe"), Constant("one"));
+            let globals = Variables::new();
+            let mut seen = vec![];
+            for round in 0..3 {
+                if round == 1 {
+                    functions.add(Identifier::from("probe"), Constant("two"));
+                }
+                if round == 2 {
+                    functions.add(Identifier::from("probe"), Constant("three"));
+                }
+                let config = ExecutionConfig::new(&functions, &globals).lazy(lazy);
+                match call_lib(|| file.execute(&tree, source, &config, &NoCancellation)) {
+                    Err(p) => return failure(&p.signature(), p.message),
+                    Ok(Err(e)) => return failure("probe-fails", format!("{}", e)),
+                    Ok(Ok(g)) => match observe(&g, &index) {
+                        Ok(o) => seen.push((o.nodes[0].attrs.get("first").cloned(), o.nodes[0].attrs.get("p").cloned())),
+                        Err(e) => return failure("bad-graph", e),
+                    },
+                }
+            }
+            let s = |x: &str| Some(CVal::Str(x.into()));
+            let want = vec![(s("one"), s("one")), (s("two"), s("two")), (s("three"), s("three"))];
+            if seen != want {
+                return failure("re-registered-function-not-used", format!("functions re-registered by the caller between executions (lazy={}): saw {:?}, expected {:?}", lazy, seen, want));
+            }
+            pass("re-registered-functions")
+        }
+    }
+}
 
 /// Known finding: the printed order of a set of syntax nodes depends on memory addresses.  The
 /// same file is executed on many parses of the same source (all kept alive, with allocations of
@@ -458,7 +616,7 @@ fn pinned_address_order() -> CaseOutcome {
 
 pub fn spec(tier: &str) -> Spec {
     let mut s = Spec::new("C12", tier, 1_500, 15_000, 900);
-    s.rule = "per case 1-3 generated files (valid and single-fault) x 1-3 trees. (a) every text is loaded twice (equal AST) and a rejected text whose diagnostic involves hash-ordered collections six times (one diagnostic); (b) the isolated result of every (file, tree, mode) is computed twice on fresh threads with freshly loaded files and must be identical in every observable form (pretty_print text, JSON value, observed graph incl. node numbering, or error text plain and pretty); (c) a history of 4-9 executions on the long-lived worker thread with the files loaded once - mixed files, trees and modes, a fifth of them cancelled at a random poll - where every result, cancelled or not, must equal the isolated one, then 8 concurrent threads sharing one &File, each equal to the isolated result; the caller's Variables are compared before / after every execution. (d) 3 (quick) / 8 (thorough) child processes given the same seed must print identical transcripts (observed graphs, pretty output, error texts). evaluations = executions. Non-trivial: >=2 trees, >=2 successful isolated results, a graph with >=2 attributes. Distinct = fingerprint of (files, sources).".into();
+    s.rule = "per case 1-3 generated files (valid and single-fault) x 1-3 trees. (a) every text is loaded twice (equal AST) and a rejected text whose diagnostic involves hash-ordered collections six times (one diagnostic); (b) the isolated result of every (file, tree, mode) is computed twice on fresh threads with freshly loaded files and must be identical in every observable form (pretty_print text, JSON value, observed graph incl. node numbering, or error text plain and pretty); (c) a history of 4-9 executions on the long-lived worker thread with the files loaded once - mixed files, trees and modes, a fifth of them cancelled at a random poll - where every result, cancelled or not, must equal the isolated one, then 8 concurrent threads sharing one &File, each equal to the isolated result; the caller's Variables are compared before / after every execution. (e) seven fixed probes: a diagnostic does not depend on the texts the thread loaded before; executions started from a caller-supplied function or from a match visitor (re-entrancy, strict / lazy inside strict / lazy) equal the isolated run; a function re-registered by the caller between executions is the one called. (d) 3 (quick) / 8 (thorough) child processes given the same seed must print identical transcripts (observed graphs, pretty output, error texts). evaluations = executions. Non-trivial: >=2 trees, >=2 successful isolated results, a graph with >=2 attributes. Distinct = fingerprint of (files, sources).".into();
     s.assumptions = vec![
         "thread interleavings are whatever the OS produces (all state is call-local; this part is a smoke check)".into(),
         "JSON syntax-node ids are per-parse handles: compared within one process on one Tree only".into(),
@@ -471,7 +629,9 @@ pub fn run_check(tier: &str) -> i32 {
     let spec = spec(tier);
     let thorough = tier == "thorough";
     let r0 = run_fixed(&spec, &[0usize], |_| pinned_address_order(), |_| vec![PINNED_TAG, 0]);
-    let r1 = merge_results(r0, run_tapes(&spec, case));
+    let probes: Vec<usize> = (0..7).collect();
+    let rp = run_fixed(&spec, &probes, |i| probe(*i), |i| vec![PROBE_TAG, *i as u32]);
+    let r1 = merge_results(merge_results(r0, rp), run_tapes(&spec, case));
     let r2 = cross_process(&spec, if thorough { 8 } else { 3 }, if thorough { 400 } else { 120 });
     finish(&spec, merge_results(r1, r2), started)
 }
